@@ -252,6 +252,50 @@ def check(chk):
         ok = bool(reads) and all(rcfg.path_avoiding(r.id, heads, [n.id] + [x.id for x in rcfg.nodes if x.kind == "stmt" and isinstance(x.ast, ast.Return)],
                                                     ignore_exc=True) is None for r in reads)
         chk.ob("SYNC-19", "every command that was read is processed in the same round", ok, rl.where(c), construct=rl.ident, text="read without processing")
+    # PASS-19: what was decoded is what the handler gets: between read_message() and the command handler nobody rebinds or edits
+    # the parameters (a log-friendly summary must be a separate object)
+    for n, c in procs:
+        rd = [x for x in rcfg.nodes if x.kind == "stmt" and isinstance(x.ast, ast.Assign) and "read_message()" in src(x.ast.value)]
+        names = [src(e) for e in rd[0].ast.targets[0].elts] if rd and isinstance(rd[0].ast.targets[0], ast.Tuple) else []
+        ok = len(names) == 2 and [src(a) for a in c.args[:2]] == names
+        chk.ob("PASS-19", "the receive loop hands the decoded (command, parameters) to the interface as decoded", ok, rl.where(c),
+               detail="decoded %s, passed %s" % (names, [src(a) for a in c.args]), construct=rl.ident, text="receive loop passes decoded message")
+    BI = "mpf/core/bcp/bcp_interface.py"
+    pm = repo.func(BI, "BcpInterface.process_bcp_message")
+    chk.analysed(pm)
+    pcfg = pm.cfg()
+    disp = [(n, c) for n, c in [(n, c) for n in pcfg.nodes if n.kind == "stmt" for c in n.calls()]
+            if any(k.arg is None and src(k.value) == "kwargs" for k in c.keywords) and any(isinstance(x, ast.Await) and x.value is c for x in n.walk())]
+    chk.need(disp, "PASS-19", "process_bcp_message awaits the command handler with **kwargs", pm)
+    for n, c in disp:
+        fn = c.func
+        looked = src(fn) == "self.bcp_receive_commands[cmd]" or (isinstance(fn, ast.Name) and any(
+            isinstance(a, ast.Assign) and src(a.targets[0]) == fn.id and src(a.value) == "self.bcp_receive_commands[cmd]" for a in ast.walk(pm.node)))
+        chk.ob("PASS-19", "the handler is the one registered for the received command", looked, pm.where(c), construct=pm.ident, text="handler lookup")
+        cl = kwarg(c, "client")
+        chk.ob("PASS-19", "the handler is told which client sent the command", cl is not None and src(cl) == "client", pm.where(c), construct=pm.ident,
+               text="handler client")
+    MUT = {"pop", "update", "clear", "setdefault", "popitem", "__setitem__", "__delitem__"}
+    bad = []
+    for x in walk_local(pm.node):
+        if isinstance(x, (ast.Assign, ast.AugAssign, ast.AnnAssign)):
+            ts = x.targets if isinstance(x, ast.Assign) else [x.target]
+            for t in ts:
+                for y in ast.walk(t):
+                    if isinstance(y, ast.Name) and y.id in ("kwargs", "cmd") and isinstance(y.ctx, ast.Store):
+                        bad.append((x, "rebinds `%s`" % y.id))
+                    if isinstance(y, ast.Subscript) and src(y.value) == "kwargs" and isinstance(y.ctx, (ast.Store, ast.Del)):
+                        bad.append((x, "edits kwargs[...]"))
+        if isinstance(x, ast.Delete) and any(src(getattr(t, "value", t)) == "kwargs" for t in x.targets):
+            bad.append((x, "deletes from kwargs"))
+        if isinstance(x, ast.Call) and call_attr(x) in MUT and isinstance(x.func, ast.Attribute) and src(x.func.value) == "kwargs":
+            bad.append((x, "kwargs.%s()" % call_attr(x)))
+    for x, why in bad:
+        chk.ob("PASS-19", "process_bcp_message leaves the received command and parameters as decoded", False, pm.where(x), detail=why, construct=pm.ident,
+               text="received message changed: " + why)
+    if not bad:
+        chk.ob("PASS-19", "process_bcp_message leaves the received command and parameters as decoded (no rebinding, no in-place edit)", True, pm.where(),
+               construct=pm.ident, text="received message untouched")
     snd = repo.func(BS, "AsyncioBcpClientSocket.send")
     ok = any(call_attr(c) == "write" and "+ '\\n'" in src(c) for c in snd.calls())
     chk.ob("OWN-17", "each command is sent as exactly one line", ok, snd.where(), construct=snd.ident, text="one line per command")
@@ -368,6 +412,9 @@ def battery():
         M("commands processed in spawned tasks", "mpf/core/bcp/bcp_transport.py", "            await self._machine.bcp.interface.process_bcp_message(cmd, kwargs, transport)", "            self._machine.clock.loop.create_task(self._machine.bcp.interface.process_bcp_message(cmd, kwargs, transport))", "SYNC-19"),
         M("twin: value tagging moved into a helper", BS, "def encode_command_string(bcp_command, **kwargs) -> str:", "def _encode_value(v) -> str:\n    value = quote(str(v), '')\n    if isinstance(v, bool):\n        return 'bool:{}'.format(value)\n    if isinstance(v, int):\n        return 'int:{}'.format(value)\n    if isinstance(v, float):\n        return 'float:{}'.format(value)\n    if v is None:\n        return 'NoneType:'\n    return value\n\n\ndef encode_command_string(bcp_command, **kwargs) -> str:", None,
           also=[(BS, "        value = quote(str(v), '')\n\n        if isinstance(v, bool):  # bool isinstance of int, so this goes first\n            value = 'bool:{}'.format(value)\n        elif isinstance(v, int):\n            value = 'int:{}'.format(value)\n        elif isinstance(v, float):\n            value = 'float:{}'.format(value)\n        elif v is None:\n            value = 'NoneType:'\n        else:  # cast anything else as a string\n            value = str(value)\n\n        kwarg_string += '{}={}&'.format(quote(k, ''),\n                                        value)", "        kwarg_string += '{}={}&'.format(quote(k, ''),\n                                        _encode_value(v))")]),
+        M("debug logging summarises the payload in place", "mpf/core/bcp/bcp_interface.py", "                debug_kwargs = deepcopy(kwargs)\n                debug_kwargs['rawbytes'] = '<{} bytes>'.format(\n                    len(debug_kwargs.pop('rawbytes')))\n\n                self.debug_log(\"Processing command: %s %s\", cmd, debug_kwargs)", "                kwargs = dict(kwargs, rawbytes='<{} bytes>'.format(len(kwargs['rawbytes'])))\n                self.debug_log(\"Processing command: %s %s\", cmd, kwargs)", "PASS-19"),
+        M("debug logging pops the payload", "mpf/core/bcp/bcp_interface.py", "                debug_kwargs = deepcopy(kwargs)\n", "                debug_kwargs = kwargs\n                kwargs.pop('rawbytes')\n", "PASS-19"),
+        M("receive loop swaps command and parameters", "mpf/core/bcp/bcp_transport.py", "process_bcp_message(cmd, kwargs, transport)", "process_bcp_message(kwargs, cmd, transport)", "PASS-19"),
     ]
 
 
